@@ -1,24 +1,27 @@
 """C13 — reconcile() returns a valid tree that equals the externally edited AST."""
 
 import ast
+import hashlib
+import json
 import random
 
 import corpus
 import util
 import c13_lib as L
-from framework import pmap
 
 ID = 'C13'
-LEAN_MODULES = ['Pfst.Props.C13']
+LEAN_MODULES = ['Pfst.Props.C13', 'Pfst.Props.C13Options']
 LEAN_DEPS = ['Pfst.Reconcile', 'Pfst.ReconcileLemmas']
 THEOREMS = [
     'Pfst.C13.frame', 'Pfst.C13.fallback_overrides', 'Pfst.C13.foreign_ok_correct', 'Pfst.C13.fields_scalar_correct',
-    'Pfst.C13.trace_correct_partial', 'Pfst.C13.trace_correct_false', 'Pfst.C13.untouched_silent',
-    'Pfst.C13.no_change_false', 'Pfst.C13.rounds',
+    'Pfst.C13.trace_correct_partial', 'Pfst.C13.pyNe_exact', 'Pfst.C13.conflation_seen', 'Pfst.C13.untouched_silent',
+    'Pfst.C13.no_change_scalar_elems', 'Pfst.C13.rounds',
     # full statements (mutual structural induction, Pfst/ReconcileCorrect.lean, ReconcileQuiet.lean, ReconcileKept.lean)
     'Pfst.C13.node_correct', 'Pfst.C13.intree_never_fails', 'Pfst.C13.children_correct', 'Pfst.C13.slice_correct',
     'Pfst.C13.slice_correct_ast', 'Pfst.C13.dict_correct', 'Pfst.C13.trace_correct', 'Pfst.C13.rounds_correct', 'Pfst.C13.untouched_silent_full',
     'Pfst.C13.no_change', 'Pfst.C13.no_change_ops', 'Pfst.C13.untouched_kept',
+    # the pinned option set of FST.reconcile (tables regenerated each run: Pfst/Gen/ReconcileOptions.lean)
+    'Pfst.C13.refused_pinned', 'Pfst.C13.pinned_refused', 'Pfst.C13.pinned_global', 'Pfst.C13.read_controlled',
 ]
 RULE = ('corpus programs (snippets covering every node type, generated programs, layout / comment / parenthesis variants, '
         'stdlib chunks) are parsed to an FST, marked, and edited by 1-3 pure-AST mutations per round for 1-3 mark/reconcile '
@@ -31,19 +34,26 @@ RULE = ('corpus programs (snippets covering every node type, generated programs,
         'documented pure-AST retry at an ancestor covers the model ops below it and is counted as fallback). The same runs '
         'are judged by the oracle: result == ast.parse(result.src) with positions; ast.dump equality with the edited AST; '
         'unchanged tree => identical source; untouched statements keep their text and trailing comment. '
-        'distinct = distinct (program, mutation script); non-trivial = the trace is not empty')
+        'CALLER OPTIONS: a slice of the same scripts is re-run inside `with FST.options(...)` (parse, mark, edits, reconcile) for every '
+        'global option of FST.get_options() at each non-default value, one at a time, plus random combinations; the oracle must give '
+        'the same verdicts, and for options reconcile() refuses as keywords ("managed during the process") the returned source must '
+        'be identical to the default-environment run. The option tables of FST.reconcile (pinned by its FST.options block, refused as '
+        'keywords, read from the thread default during the replay) are extracted at run time into Pfst/Gen/ReconcileOptions.lean. '
+        'distinct = distinct (program, mutation script, caller options); non-trivial = the trace is not empty')
 TRUSTED = [
     'modelled (Pfst/Reconcile.lean): Reconcile.recurse_node (in-tree in place / off path / other tree verified / other tree '
-    'unverified / pure AST; the except -> put_node retry), recurse_children (ctx/str skipped, scalar `!=` comparison, the slice '
+    'unverified / pure AST; unchanged None / identifier list elements left alone (repair of F8); the except -> put_node retry), '
+    'recurse_children (ctx/str skipped, scalar comparison by value AND type (repair of F1), the slice '
     'field name list, Dict -> recurse_slice_dict, different-length NotImplementedError), recurse_slice and recurse_slice_dict '
     '(first-element condition, contiguous-run detection, other-tree verification of the run, insertion past the end, tail '
     'deletion), put_node, _SLICE_COMAPTIBILITY (read from the imported module on every run)',
     'not modelled: what put / put_slice / replace / copy / get_slice do to the source text (C03-C08); their failures are '
     'observed as raised ops and accepted only in the shape of the documented retry at the parent; verify(reparse=False) is '
-    're-implemented in the harness (link check) and its verdict is an input of the model',
+    're-implemented in the harness (link check) and, for the reparse of the copy added by the repair of F2, by a comparison with '
+    'CPython\'s parse of the other tree\'s source; the verdict is an input of the model',
     'the serialiser (harness/c13_lib.py Ser): origin tags from node.f / f.root / f.parent / f.pfield, Dict as a list of '
     '(key, value) pairs, ctx and str fields dropped, primitive values as (Python == class, exact type+repr)',
-    'excluded inputs: programs with a keyword-only lambda parameter inside an f-string (C13-F8); list edits of unparenthesised '
+    'excluded inputs: list edits of unparenthesised '
     'tuples written with backslash continuations (C13-F7); deletions in Global / Nonlocal names lists written with a backslash '
     'continuation (C13-F10); in-tree nodes moved under nodes of other trees (C13-F5); primitive / '
     'optional-field / list edits inside nodes of other trees (C13-F2); mutation targets inside f-strings, patterns, subscript slices, decorators, Store/Del targets; Starred and '
@@ -56,21 +66,27 @@ TRUSTED = [
     'that is the first statement of an If.orelse (elif spelling and its indentation) are not compared',
 ]
 ASSUMPTIONS = [
+    'caller-controllable options (accepted by reconcile() as keywords: promote, elif_, pep8space, set_norm, op_side, op, args_as) may '
+    'change the returned source; under them only validity and structural equality are required',
+    'readDefault (Pfst/Gen/ReconcileOptions.lean) is what a fixed mini sweep of mark/reconcile rounds reads from the thread default; '
+    'the environment sweep is the behavioural check for anything it does not reach',
     'wfN (hypothesis of trace_correct / untouched_kept, decidable, Pfst/Reconcile.lean): every in-tree origin names an existing '
     'path of the marked tree whose node has the same kind and field shapes (AST classes have fixed _fields), tree ids of other '
     'trees are != 0, list elements are not lists, the (key, value) pairs of a Dict have a key that is a node or None and a pair '
     'origin consistent with what recurse_slice_dict reads off values[i].f / keys[i].f (the serialiser computes it that way); '
     'evaluated by the driver per case (`wf`, tallied as theorem_hypothesis)',
-    'primOK (part of wfN): Python == on the primitives compared by recurse_children coincides with identity of type and value; '
-    'false in general (trace_correct_false, finding C13-F1)',
-    'stillN (hypothesis of no_change / untouched_silent_full): all nodes in place, scalars == the marked ones, list fields of the '
-    'marked length holding nodes only (None / str list elements are re-put on every reconcile: no_change_false, C13-F8); Dict '
-    'pairs in place with key and value in place (None key over None key)',
+    'no hypothesis about primitive values is left in wfN: since the repair of C13-F1 recurse_children compares value AND type, the '
+    'model compares the whole (== class, type+repr) pair (pyNe_exact); the serialiser identifies nothing but signed zeros '
+    '(0.0 / -0.0 are == and of one type; Constant(-0.0) has no source form and is not generated)',
+    'stillN (hypothesis of no_change / untouched_silent_full): all nodes in place, scalars (fields and None / str list elements: '
+    'Global.names, kw_defaults) the marked ones, list fields of the marked length; Dict pairs in place with key and value in '
+    'place (None key over None key); since the repair of C13-F8 it holds on every unedited tree of the sweep (cross-checked)',
     'keptN (hypothesis of untouched_kept): the ancestors of the untouched subtree are in place and recurse_children of none of '
     'them raises (otherwise the documented retry puts the ancestor as a pure AST and the formatting below it is lost); no Dict '
     'list on the path itself (statements are never inside a Dict)',
-    'a copy of a verified node of another tree has the structure of that node (false when only primitives were changed there: '
-    'finding C13-F2)',
+    'a copy of a verified node of another tree has the structure of that node: since the repair of C13-F2 the copy is reparsed '
+    '(copy().verify()); the harness decides the `ok` flag of the model by the link check AND by comparing the subtree with '
+    'CPython\'s parse of the other tree\'s source at the same path (c13_lib.same_as_source)',
 ]
 LEVEL_TEXT = ('Lean 4 theorems about an executable model of the reconcile diff, proved by mutual structural induction over the '
               'nested tree type: for EVERY marked/edited pair meeting the decidable side condition wfN (any size, any '
@@ -166,7 +182,77 @@ WITNESS = {
 }
 
 
+# non-default values of every global option (`FST.get_options()`), used as the CALLER's thread defaults around
+# mark() / the AST edits / reconcile(): reconcile pins its own option set, its result must not depend on these
+ENV_VALUES = {
+    'raw': [True, 'auto'],
+    'trivia': [False, 'all+1', ()],
+    'coerce': [False],
+    'promote': [False, 'all'],
+    'elif_': [False],
+    'pep8space': [False, 1],
+    'docstr': [False, 'strict'],
+    'pars': [False, True],
+    'pars_walrus': [True, None],
+    'pars_arglike': [False, None],
+    'norm': [True, 'call'],
+    'norm_self': [True, False],
+    'norm_get': [True, False],
+    'set_norm': ['call'],
+    'op_side': ['right'],
+    'op': ['<'],
+    'args_as': ['kw', 'pos'],
+}
+
+
+def env_name(env):
+    return ','.join(f'{k}={env[k]!r}' for k in sorted(env)) if env else ''
+
+
+def _envs(rng, ncombos):
+    """every global option at each non-default value, one at a time, plus a few random combinations"""
+    from fst import FST
+    names = list(FST.get_options())
+    envs = []
+    for o in names:
+        for v in ENV_VALUES.get(o, []):
+            envs.append({o: v})
+    missing = [o for o in names if o not in ENV_VALUES]
+    for _ in range(ncombos):
+        ks = rng.sample([o for o in names if o in ENV_VALUES], rng.randint(2, 4))
+        envs.append({k: rng.choice(ENV_VALUES[k]) for k in ks})
+    return envs, missing
+
+
 def _run_case(arg):
+    """(src, seed, mode, foreign[, env]): with `env` the whole case (parse, mark, edits, reconcile) runs inside
+    `with FST.options(**env)` (the caller's own defaults); the edits depend on (src, seed, mode) only."""
+    env = arg[4] if len(arg) > 4 else None
+    if not env:
+        try:
+            return _run_case_inner(arg[:4])
+        except Exception:
+            # never kill the pool (a raising task makes pool.map return early and the run would end without a verdict on the
+            # other cases); the crash is reported by _judge as a broken correspondence with its traceback
+            import traceback
+            return {'src': arg[0], 'seed': arg[1], 'mode': arg[2], 'rounds': [], 'skip': 'harness crash',
+                    'crash': traceback.format_exc()[-1500:]}
+    from fst import FST
+    try:
+        with FST.options(**env):
+            res = _run_case_inner(arg[:4])
+    except Exception as e:
+        res = {'src': arg[0], 'seed': arg[1], 'mode': arg[2], 'rounds': [], 'skip': 'harness exception under env: ' + type(e).__name__}
+    res['env'] = env
+    for R in res.get('rounds', []):       # the model comparison is done on the default-environment runs; keep the transfer small
+        if 'case' in R:
+            R['case'] = {}
+            R['reps'] = []
+            R['real'] = [e for e in R.get('real', []) if 'raised' in e][:5]
+    return res
+
+
+def _run_case_inner(arg):
     """One program, 1-3 rounds.  Returns a dict (JSON-able) with per-round model input, real trace and oracle verdicts."""
     src, seed, mode, foreign = arg
     from fst import FST
@@ -182,9 +268,6 @@ def _run_case(arg):
         return res
     if L.util.tree_equals_parse(f) is not None:
         res['skip'] = 'initial tree != parse'
-        return res
-    if mode not in WITNESS and _fstring_kwonly(f.a):
-        res['skip'] = 'keyword-only lambda inside an f-string (C13-F8)'
         return res
     if mode in WITNESS:
         src = WITNESS[mode][0]
@@ -235,6 +318,7 @@ def _run_case(arg):
         try:
             edited_json = S.ser(f.a)
             want = L.norm_dump(f.a)
+            R['want_h'] = hashlib.md5(want.encode()).hexdigest()
             ast.unparse(f.a)         # CPython accepts the edited AST as a tree (type-valid)
         except (RecursionError, IndexError, ValueError) as e:
             res['skip'] = 'edited tree not serialisable: ' + type(e).__name__
@@ -354,10 +438,13 @@ def _cases(ctx, progs, nspecial, per_prog=1):
     return args
 
 
-def _judge(ctx, results, name='reconcile trace vs Pfst.Reconcile.reconcile', search=False):
+def _judge(ctx, results, name='reconcile trace vs Pfst.Reconcile.reconcile', search=False, model=True):
     """model vs real trace (correspondence) and the oracle verdicts (property) for a batch of executed cases"""
     cases, owners = [], []
     for res in results:
+        if 'crash' in res:
+            ctx.brk('correspondence', 'C13 harness crash', json.dumps({'src': res.get('src'), 'seed': res.get('seed'), 'mode': res.get('mode')})
+                    + ' ' + res['crash'])
         if 'skip' in res:
             ctx.tally('skipped', res['skip'])
             continue
@@ -365,11 +452,14 @@ def _judge(ctx, results, name='reconcile trace vs Pfst.Reconcile.reconcile', sea
             if 'case' in R:
                 cases.append(R['case'])
                 owners.append((res, R))
-    try:
-        outs = ctx.lean(cases)
-    except Exception as e:
-        ctx.brk('correspondence', name, f'driver error: {e}')
-        outs = [None] * len(cases)
+    if model:
+        try:
+            outs = ctx.lean(cases)
+        except Exception as e:
+            ctx.brk('correspondence', name, f'driver error: {e}')
+            outs = [None] * len(cases)
+    else:
+        outs = [None] * len(cases)       # oracle verdicts only
     bad = 0
     for (res, R), c, mo in zip(owners, cases, outs):
         muts = R.get('muts') or []
@@ -377,16 +467,18 @@ def _judge(ctx, results, name='reconcile trace vs Pfst.Reconcile.reconcile', sea
             ctx.tally('mutation_kind', m[0])
         if 'refused' in R:
             ctx.tally('refused', R['refused'][:60])
-        key = [res['src'], res['seed'], res['mode'], R['round']]
+        key = [res['src'], res['seed'], res['mode'], R['round'], env_name(res.get('env'))]
+        at = ('@' + env_name(res['env'])) if res.get('env') else ''
         # ---- property oracle ----
         if 'raised' in R:
             cls = 'raised:' + R['raised'].split(':')[0]
-            ctx.fail(_sig(R, cls), f'reconcile() raised {R["raised"]} after {muts}',
-                     {'src': res['src'], 'seed': res['seed'], 'mode': res['mode'], 'round': R['round'], 'muts': muts})
-        for cls, detail in R.get('fails', []):
-            ctx.fail(_sig(R, cls), f'{cls} after {muts}: {detail[:300]}',
+            ctx.fail(_sig(R, cls + at), f'reconcile() raised {R["raised"]} after {muts}' + (f' under caller options {at[1:]}' if at else ''),
                      {'src': res['src'], 'seed': res['seed'], 'mode': res['mode'], 'round': R['round'], 'muts': muts,
-                      'marked_src': R.get('marked_src'), 'result_src': R.get('result_src')})
+                      'env': res.get('env')})
+        for cls, detail in R.get('fails', []):
+            ctx.fail(_sig(R, cls + at), f'{cls} after {muts}' + (f' under caller options {at[1:]}' if at else '') + f': {detail[:300]}',
+                     {'src': res['src'], 'seed': res['seed'], 'mode': res['mode'], 'round': R['round'], 'muts': muts,
+                      'env': res.get('env'), 'marked_src': R.get('marked_src'), 'result_src': R.get('result_src')})
         ctx.tally('untouched_statements_compared', 'n')
         ctx.dist['untouched_statements_compared']['n'] += R.get('untouched_compared', 0) - 1
         # ---- correspondence ----
@@ -424,6 +516,10 @@ def _judge(ctx, results, name='reconcile trace vs Pfst.Reconcile.reconcile', sea
             ctx.brk('proof', 'Pfst.C13.trace_correct', f'driver: wfN holds, no failure, but applyOps trace != erase edited on {key}')
         if not muts:
             ctx.tally('theorem_hypothesis', 'no_change: stillN ' + ('holds' if m.get('still') else 'fails'))
+            if not m.get('still') and res['mode'] == 'nochange':
+                ctx.brk('correspondence', 'stillN on an unedited tree', f'the serialised unedited tree does not meet stillN on {key}')
+        if not wf and res['mode'] == 'prim_conflate':
+            ctx.brk('correspondence', 'wfN on a primitive change', f'wfN fails on a pure primitive change (no primitive hypothesis is left) on {key}')
         if m.get('still') and m['ops']:
             ctx.brk('proof', 'Pfst.C13.no_change', f'driver: stillN holds but the trace is not empty on {key}')
         for kp, tc in zip(m.get('kept', []), m.get('touched', [])):
@@ -432,9 +528,8 @@ def _judge(ctx, results, name='reconcile trace vs Pfst.Reconcile.reconcile', sea
                 ctx.brk('proof', 'Pfst.C13.untouched_kept', f'driver: keptN and wfN hold but an operation touches the path on {key}')
         if not m.get('res_ok', True) and not m.get('fail'):
             ctx.tally('model_result_ne_edited', res['mode'])
-            if res['mode'] != 'prim_conflate':
-                st = 'differ'
-                detail = 'model: applyOps trace (erase mark) != erase edited (WF / PrimExact hypothesis false on this input)'
+            st = 'differ'
+            detail = 'model: applyOps trace (erase mark) != erase edited (wfN false on this input?)'
         if st == 'differ':
             bad += 1
             if len(ctx.corr_disagreements) < 20:
@@ -451,6 +546,203 @@ def _judge(ctx, results, name='reconcile trace vs Pfst.Reconcile.reconcile', sea
         ctx.brk('correspondence', name, f'{bad}/{len(cases)} cases differ; first: ' + str(ctx.corr_disagreements[0])[:1500])
 
 
+# ---- the option set FST.reconcile pins, extracted extensionally ------------------------------------------------------
+
+def _probe_options(_=None):
+    """Runs in a forked child.  (a) global option names; (b) `refused`: options FST.reconcile() rejects as keyword ("managed
+    during the process"), probed by calling it; (c) `pinned`: kwargs of the first `FST.options(...)` block entered during one
+    reconcile() call; (d) `read`: global options read from the THREAD DEFAULT (not from an explicit `options` mapping) while
+    Reconcile.recurse_node runs, over a fixed mini sweep (the module global fst_options._OPTIONS is replaced by a recording
+    proxy for the duration)."""
+    from fst import FST
+    import fst.fst_options as FO
+    from fst import reconcile as RC
+    glob = list(FST.get_options())
+    defaults = FST.get_options()
+    refused = []
+    for o in glob:
+        f = FST('x = 1', 'exec')
+        f.mark()
+        try:
+            f.reconcile(**{o: defaults[o]})
+        except ValueError as e:
+            if 'not allowed in reconcile' in str(e):
+                refused.append(o)
+        except Exception:
+            pass
+    # pinned
+    calls = []
+    orig_options = FST.__dict__['options']
+    orig_fn = orig_options.__func__ if isinstance(orig_options, staticmethod) else orig_options
+
+    def rec_options(**kw):
+        calls.append(dict(kw))
+        return orig_fn(**kw)
+
+    FST.options = staticmethod(rec_options)
+    try:
+        f = FST('x = a\ny = b', 'exec')
+        f.mark()
+        f.a.body[0].value = ast.BinOp(ast.Name('p', ast.Load()), ast.Add(), ast.Name('q', ast.Load()))
+        f.reconcile()
+    finally:
+        FST.options = orig_options
+    pinned = {k: repr(v) for k, v in (calls[0] if calls else {}).items()}
+    # read from the thread default during the replay
+    log = set()
+
+    class DictProxy:
+        def __init__(self, d):
+            self.d = d
+
+        def get(self, k, default=None):
+            log.add(k)
+            return self.d.get(k, default)
+
+        def __getitem__(self, k):
+            log.add(k)
+            return self.d[k]
+
+        def __contains__(self, k):
+            return k in self.d
+
+        def update(self, *a, **k):
+            return self.d.update(*a, **k)
+
+        def copy(self):
+            return self.d.copy()
+
+    real = FO._OPTIONS
+
+    class Proxy:
+        def __getattribute__(self, name):
+            if name == '__dict__':
+                return DictProxy(real.__dict__)
+            log.add(name)
+            return getattr(real, name)
+
+        def __setattr__(self, name, v):
+            setattr(real, name, v)
+
+    proxy = Proxy()
+    depth = [0]
+    orig_rn = RC.Reconcile.recurse_node
+
+    def rn(self, *a, **k):
+        if depth[0] == 0:
+            FO._OPTIONS = proxy
+        depth[0] += 1
+        try:
+            return orig_rn(self, *a, **k)
+        finally:
+            depth[0] -= 1
+            if depth[0] == 0:
+                FO._OPTIONS = real
+
+    RC.Reconcile.recurse_node = rn
+    try:
+        rng = random.Random('C13-options')
+        progs = corpus.programs(rng, 90, stdlib=0)
+        n = 0
+        for i, p in enumerate(progs):
+            for j in range(2):
+                r = _run_case_inner((p, 7919 * i + j, 'normal', None))
+                n += len(r.get('rounds', []))
+    finally:
+        RC.Reconcile.recurse_node = orig_rn
+        FO._OPTIONS = real
+    return {'global': glob, 'refused': refused, 'pinned': pinned, 'read': sorted(x for x in log if x in glob),
+            'read_other': sorted(x for x in log if x not in glob), 'rounds': n}
+
+
+_OPT = None
+
+
+def _option_tables():
+    global _OPT
+    if _OPT is None:
+        r = L.fork_map(_probe_options, [None], nchunks=1)[0]       # in a child: the probes patch classes at run time
+        if 'crash' in r:
+            raise RuntimeError('option probe failed: ' + r['crash'])
+        _OPT = r
+    return _OPT
+
+
+def _lean_strs(xs):
+    return '[' + ', '.join('"' + x + '"' for x in xs) + ']'
+
+
+def extract(ctx):
+    """lean/Pfst/Gen/ReconcileOptions.lean: the option tables of FST.reconcile, evaluated on the imported modules"""
+    import framework
+    t = _option_tables()
+    txt = ('-- GENERATED by harness/props/C13.py (extract) from the imported /repo modules; do not edit\n'
+           'namespace Pfst.Gen.ReconcileOptions\n\n'
+           '/-- `FST.get_options()`: every global (thread default) option -/\n'
+           f'def globalOptions : List String := {_lean_strs(t["global"])}\n\n'
+           '/-- options `FST.reconcile()` refuses as keyword ("managed during the process"), probed by calling it -/\n'
+           f'def refused : List String := {_lean_strs(t["refused"])}\n\n'
+           '/-- keyword names of the `with FST.options(...)` block entered by `FST.reconcile()` (recorded at run time) -/\n'
+           f'def pinned : List String := {_lean_strs(list(t["pinned"]))}\n\n'
+           '/-- the pinned values, as Python reprs -/\n'
+           'def pinnedValues : List (String × String) := ['
+           + ', '.join('("' + k + '", "' + v.replace('\\', '\\\\').replace('"', '\\"') + '")' for k, v in t['pinned'].items()) + ']\n\n'
+           '/-- global options read from the thread default while `Reconcile.recurse_node` runs (fixed mini sweep of '
+           f'{t["rounds"]} mark/reconcile rounds) -/\n'
+           f'def readDefault : List String := {_lean_strs(t["read"])}\n\n'
+           'end Pfst.Gen.ReconcileOptions\n')
+    framework.write_if_changed(framework.LEAN / 'Pfst' / 'Gen' / 'ReconcileOptions.lean', txt)
+    ctx.notes['reconcile_option_tables'] = t
+
+
+def _env_cases(ctx, progs, per_env, ncombos):
+    rng = random.Random(ctx.rng.random())
+    envs, missing = _envs(rng, ncombos)
+    base_args = [(p, ctx.rng.randrange(1 << 30), 'normal', None) for p in progs[:per_env]]
+    env_args = [a + (e,) for e in envs for a in base_args]
+    return base_args, env_args, envs, missing
+
+
+def _judge_env(ctx, base, env_results, refused):
+    """the result of reconcile() under non-default caller options vs the result under the defaults (same program, same
+    edits): for options that reconcile() refuses as keywords ("managed during the process") the source must be identical"""
+    by = {(r.get('src'), r.get('seed'), r.get('mode')): r for r in base if 'crash' not in r}
+    for r in env_results:
+        if 'crash' in r:
+            continue
+        b = by.get((r['src'], r['seed'], r['mode']))
+        env = r.get('env') or {}
+        en = env_name(env)
+        if b is None or 'skip' in b or 'skip' in r:
+            if b is not None and ('skip' in r) != ('skip' in b):
+                ctx.tally('env_runs', 'skipped on one side only: ' + str(r.get('skip') or b.get('skip'))[:50])
+            continue
+        managed = all(k in refused for k in env)
+        for Rb, Re in zip(b['rounds'], r['rounds']):
+            if Rb.get('muts') != Re.get('muts') or Rb.get('want_h') != Re.get('want_h'):
+                ctx.tally('env_runs', 'edits differ (generator depends on options)')
+                break
+            ctx.count([r['src'], r['seed'], en, Rb['round']], True)
+            if 'result_src' not in Rb or Rb.get('fails'):
+                ctx.tally('env_runs', 'default run has no clean result')
+                break
+            if 'result_src' not in Re or Re.get('fails'):
+                ctx.tally('env_runs', 'fails under env only (reported by the oracle)')
+                break
+            if Rb['result_src'] == Re['result_src']:
+                ctx.tally('env_runs', 'same source as under defaults' + (' (managed option)' if managed else ' (caller option)'))
+                continue
+            if not managed:
+                ctx.tally('env_runs', 'source differs under a caller-controllable option: ' + '+'.join(sorted(env)))
+                break
+            ctx.fail(_sig(Re, 'source-depends-on-caller-options@' + en),
+                     f'reconcile() under caller options {en} returns another source than under the defaults after {Re.get("muts")}: '
+                     + util.first_diff(Re['result_src'], Rb['result_src']).replace('live=', 'env=').replace('parsed=', 'default='),
+                     {'src': r['src'], 'seed': r['seed'], 'mode': r['mode'], 'round': Re['round'], 'muts': Re.get('muts'),
+                      'env': env, 'default_src': Rb['result_src'], 'result_src': Re['result_src']})
+            break
+
+
 def correspondence(ctx):
     """runs in sweep() (same executions serve the trace comparison and the oracle)"""
     ctx.notes['sig_table'] = {str(k[0].__name__) + '.' + k[1]: v for k, v in _sigs().table.items()}
@@ -460,16 +752,24 @@ def sweep(ctx):
     q = ctx.quick
     progs = _programs(ctx, 420 if q else 3000, 20 if q else 200)
     args = _cases(ctx, progs, 120 if q else 600, per_prog=2 if q else 4)
-    results = pmap(_run_case, args)
-    _judge(ctx, results)
+    base_args, env_args, envs, missing = _env_cases(ctx, progs, 80 if q else 150, 4 if q else 8)
+    allargs = args + base_args + env_args
+    results = L.fork_map(_run_case, allargs, nchunks=48)      # few chunks: a fresh process (fork) per chunk is costly
+    n0, n1 = len(args), len(args) + len(base_args)
+    _judge(ctx, results[:n1])
+    _judge(ctx, results[n1:], name='oracle under non-default caller options', model=False)
+    _judge_env(ctx, results[n0:n1], results[n1:], _option_tables()['refused'])
     ctx.notes['cases'] = len(args)
+    ctx.notes['caller_option_environments'] = [env_name(e) for e in envs]
+    if missing:
+        ctx.brk('extraction', 'ENV_VALUES', f'global options without a non-default value in the harness: {missing}')
 
 
 def search(ctx):
     progs = _programs(ctx, 2500, 100)
     hint_args = [(s, sd, m, None) for (s, sd, m) in ctx.hints[:50] if isinstance(s, str)]
     args = hint_args + _cases(ctx, progs, 300, per_prog=3)
-    results = pmap(_run_case, args)
+    results = L.fork_map(_run_case, args, nchunks=48)
     n = 0
     for res in results:
         for R in res.get('rounds', []):
@@ -490,7 +790,15 @@ def replay(ctx, data):
     if not w:
         print('replay file names a broken obligation, not an input:', [b for b in data.get('broken', [])][:3])
         return
-    res = _run_case((w['src'], w['seed'], w.get('mode', 'normal'), None))
+    env = w.get('env')
+    if env:
+        env = {k: (tuple(v) if isinstance(v, list) else v) for k, v in env.items()}
+    res = _run_case((w['src'], w.get('seed', 0), w.get('mode', 'normal'), None, env))
+    if env and w.get('default_src') is not None:
+        base = _run_case((w['src'], w.get('seed', 0), w.get('mode', 'normal'), None))
+        for Rb, Re in zip(base.get('rounds', []), res.get('rounds', [])):
+            if 'result_src' in Rb and 'result_src' in Re and Rb['result_src'] != Re['result_src']:
+                ctx.fail('replay', 'result source depends on the caller options ' + env_name(env), w)
     for R in res.get('rounds', []):
         if 'raised' in R:
             ctx.fail('replay', 'raised ' + R['raised'], w)
